@@ -10,11 +10,13 @@ LEVEL = "model_checking"
 BOUNDS = {
     "quick": "LinearGaussianBayesianNetwork.to_joint_gaussian and predict on every DAG with <=3 nodes (one topological order, permuted labels) with symbolic "
              "intercepts, coefficients, positive variances and symbolic observed values, every split into observed/missing variables; "
-             "GaussianDistribution.marginalize / reduce / copy on symbolic 2- and 3-variable distributions built from a symbolic linear-Gaussian network",
+             "GaussianDistribution.marginalize / reduce / copy / to_canonical_factor and CanonicalDistribution.product on symbolic 2- and 3-variable distributions "
+             "built from a symbolic linear-Gaussian network",
     "thorough": "4-node DAGs",
 }
 ASSUMPTIONS = ["exact real arithmetic; the 8-decimal rounding in to_joint_gaussian is modelled as the identity",
                "numpy.linalg.inv is modelled by symbolic Gauss-Jordan elimination with pivot forks (LAPACK itself is outside)",
+               "in the canonical form g, log and the square root of the determinant are uninterpreted functions (K and h are exact)",
                "fit (least squares through sklearn), simulate and pdf values are outside the claim; covariance matrices come from linear-Gaussian networks "
                "with positive variances (hence positive definite)"]
 
@@ -53,6 +55,23 @@ class _Linalg:
         return out
 
     @staticmethod
+    def det(a):
+        a = np.asarray(a, dtype=object)
+        if not any(isinstance(x, core.SymReal) for x in a.ravel()):
+            return np.linalg.det(a.astype(float))
+        stubs._hit("np.linalg.det -> cofactor expansion")
+
+        def d(Mx):
+            if len(Mx) == 1:
+                return Mx[0][0]
+            t = core.lift(0)
+            for j in range(len(Mx)):
+                minor = [r[:j] + r[j + 1:] for r in Mx[1:]]
+                t = t + (Mx[0][j] * d(minor) if j % 2 == 0 else -(Mx[0][j] * d(minor)))
+            return t
+        return d([[core.lift(x) for x in row] for row in a.tolist()])
+
+    @staticmethod
     def multi_dot(arrs):
         r = arrs[0]
         for x in arrs[1:]:
@@ -84,6 +103,20 @@ class _NPL:
         return np.asarray(a, dtype=object if dtype in (float, None) else dtype)
 
     @staticmethod
+    def log(x):
+        if isinstance(x, core.SymReal):
+            stubs._hit("np.log -> uninterpreted")
+            return core.CTX.uf("ln", x)
+        return np.log(x)
+
+    @staticmethod
+    def power(x, e):
+        if isinstance(x, core.SymReal):
+            stubs._hit("np.power -> uninterpreted")
+            return core.CTX.uf(f"pow_{e}", x)
+        return np.power(x, e)
+
+    @staticmethod
     def array(a, dtype=None, **kw):
         return np.array(a, dtype=object if dtype in (float, None) else dtype)
 
@@ -92,6 +125,7 @@ def install_stubs(desc):
     stubs.patch_attr("pgmpy.models.LinearGaussianBayesianNetwork", "np", _NPL())
     stubs.patch_attr("pgmpy.factors.distributions.GaussianDistribution", "np", _NPL())
     stubs.patch_attr("pgmpy.factors.continuous.LinearGaussianCPD", "np", _NPL())
+    stubs.patch_attr("pgmpy.factors.distributions.CanonicalDistribution", "np", _NPL())
 
 
 LABELS = [["x1", "x2", "x3", "x4"], ["c", "a", "b", "d"], ["n3", "n1", "n2", "n0"]]
@@ -118,7 +152,7 @@ def scenarios(tier, seed):
                             out.append(dict(family="lgbn/predict", mode="predict", n=n, edges=edges, labels=lab, missing=list(miss), hashseed=k % 2,
                                             budget_s=60))
             if n >= 2:
-                for op in ("marginalize", "reduce", "copy", "precision_seq"):
+                for op in ("marginalize", "reduce", "copy", "precision_seq", "canonical"):
                     k += 1
                     out.append(dict(family=f"gaussian/{op}", mode="gauss", op=op, n=n, edges=edges, labels=k % len(LABELS), which=k, hashseed=k % 2, budget_s=60))
     return out
@@ -137,7 +171,7 @@ def build(desc, M):
     n = desc["n"]
     edges = [tuple(e) for e in desc["edges"]]
     lab = LABELS[desc["labels"]]
-    M.declare(sym_names(n, edges))
+    M.declare(sym_names(n, edges), extra=(16 if desc.get("op") == "canonical" else 0))
     b = [M.sym(f"b{v}") for v in range(n)]
     s = [M.sym(f"s{v}", pos=True) for v in range(n)]
     w = {(u, v): M.sym(f"w{u}_{v}") for (u, v) in edges}
@@ -303,6 +337,50 @@ def run(desc, M):
                     for t in range(len(keep)):
                         acc = acc + K2[i][t] * cov[keep[t]][keep[j]]
                     M.eq(acc, 1 if i == j else 0, f"precision of a marginal ({variant}) is the inverse of the marginal covariance (no stale cache)")
+    elif op == "canonical":
+        # canonical form of the joint: K Sigma = I and Sigma h = mu (no inverse needed); product of the canonical forms of two marginals adds
+        # K and h entry-wise BY VARIABLE NAME over the union scope, and g adds up
+        phi = g.to_canonical_factor()
+        M.check(list(phi.variables) == names, "canonical factor keeps the scope", detail=str(phi.variables))
+        for i in range(n):
+            acc_h = M.const(0)
+            for t in range(n):
+                acc_h = acc_h + cov[i][t] * phi.h[t][0]
+            M.eq(acc_h, mu[i], "canonical form: Sigma h = mu")
+            for j in range(n):
+                acc = M.const(0)
+                for t in range(n):
+                    acc = acc + phi.K[i][t] * cov[t][j]
+                M.eq(acc, 1 if i == j else 0, "canonical form: K is the inverse of the covariance")
+        if n >= 3:
+            sa = [0, 1] if k % 2 else [1, 0]
+            sb = [2, 1] if k % 3 else [1, 2]
+            ga = GaussianDistribution([names[v] for v in sa], [M.impl(mu[v]) for v in sa], [[M.impl(cov[u][v]) for v in sa] for u in sa])
+            gb = GaussianDistribution([names[v] for v in sb], [M.impl(mu[v]) for v in sb], [[M.impl(cov[u][v]) for v in sb] for u in sb])
+            pa, pb = ga.to_canonical_factor(), gb.to_canonical_factor()
+            Ka, ha, ga_ = np.array(pa.K, dtype=object).copy(), np.array(pa.h, dtype=object).copy(), pa.g
+            Kb, hb, gb_ = np.array(pb.K, dtype=object).copy(), np.array(pb.h, dtype=object).copy(), pb.g
+            for variant in ("out", "inplace"):
+                if variant == "out":
+                    pr = pa.product(pb, inplace=False) if k % 2 else pa * pb
+                else:
+                    pr = pa
+                    pa.product(pb, inplace=True)
+                M.check(set(pr.variables) == {names[v] for v in set(sa) | set(sb)} and len(pr.variables) == 3, f"canonical product ({variant}): union scope", detail=str(pr.variables))
+                pos = {v_: i for i, v_ in enumerate(pr.variables)}
+
+                def part(Kx, hx, scope, u, v=None):
+                    nm_ = [names[x] for x in scope]
+                    if u not in nm_ or (v is not None and v not in nm_):
+                        return M.const(0)
+                    return hx[nm_.index(u)][0] if v is None else Kx[nm_.index(u)][nm_.index(v)]
+                for u in pr.variables:
+                    M.eq(pr.h[pos[u]][0], part(Ka, ha, sa, u) + part(Kb, hb, sb, u), f"canonical product ({variant}): h adds up by variable name", detail=u)
+                    for v in pr.variables:
+                        M.eq(pr.K[pos[u]][pos[v]], part(Ka, ha, sa, u, v) + part(Kb, hb, sb, u, v), f"canonical product ({variant}): K adds up by variable name", detail=f"{u},{v}")
+                M.eq(pr.g, ga_ + gb_, f"canonical product ({variant}): g adds up")
+                if variant == "out":
+                    M.check(list(pa.variables) == [names[v] for v in sa] and tuple(np.shape(pa.K)) == (2, 2), "canonical product (out of place) leaves the left operand")
     else:
         g2 = g.copy()
         M.check(list(g2.variables) == list(g.variables), "copy keeps the variables")
